@@ -72,6 +72,8 @@ def full_model(ds) -> dict:
             "meta": canon_meta(ds.generation_metadata_collected),
             "len": len(ds),
         }
+    if type(ds).__name__ != "MazeDataset":
+        return {"class": type(ds).__name__}  # e.g. a plain dict when no loader recognised the stored format: compare() reports it
     m = _ds.ds_model(ds)
     m["meta"] = canon_meta(ds.generation_metadata_collected)
     m["ends"] = [[[int(x) for x in np.asarray(z.start_pos)], [int(x) for x in np.asarray(z.end_pos)]] for z in ds.mazes]
